@@ -143,7 +143,10 @@ def object_level(j, version, key):
         "marking-definition": [("tlp-wrong-id", dict(wo("name"), definition_type="tlp", definition={"tlp": "red"})), ("tlp-unknown-colour", dict(j, definition_type="tlp", definition={"tlp": "blue"})),
                                ("statement-with-tlp-body", dict(j, definition_type="statement", definition={"tlp": "red"})), ("unknown-definition-type", dict(j, definition_type="x-foo", definition={"a": 1})),
                                ("no-definition", wo("definition")), ("no-definition-type", wo("definition_type"))],
-        "artifact": [("payload-and-url", dict(j, payload_bin="YQ==", url="https://e.x/a", hashes={"MD5": gen.HASHES["MD5"]})), ("url-without-hashes", dict(wo("payload_bin", "hashes"), url="https://e.x/a"))],
+        "artifact": [("payload-and-url", dict(j, payload_bin="YQ==", url="https://e.x/a", hashes={"MD5": gen.HASHES["MD5"]})),
+                     # one member of the exclusive pair present but EMPTY
+                     ("payload-and-empty-url", dict(j, payload_bin="YQ==", url="", hashes={"MD5": gen.HASHES["MD5"]})),
+                     ("empty-payload-and-url", dict(j, payload_bin="", url="https://e.x/a", hashes={"MD5": gen.HASHES["MD5"]})), ("url-without-hashes", dict(wo("payload_bin", "hashes"), url="https://e.x/a"))],
         "email-message": [("multipart-with-body", dict(wo("body_multipart"), is_multipart=True, body="b")),
                           ("not-multipart-with-body_multipart", dict(wo("body"), is_multipart=False, body_multipart=[{"body": "b", "content_type": "text/plain"}]))],
         "file": [("neither-hashes-nor-name", wo("hashes", "name")), ("empty-name-no-hashes", dict(wo("hashes"), name=""))] if version == "2.1" else
@@ -169,6 +172,8 @@ def object_level(j, version, key):
                 ("gm-neither-ref-nor-lang", dict(j, granular_markings=[{"selectors": ["type"]}])), ("gm-ref-to-identity", dict(j, granular_markings=[{"marking_ref": "identity--" + V4, "selectors": ["type"]}]))]
         if version == "2.1":
             out.append(("gm-both-ref-and-lang", dict(j, granular_markings=[{"marking_ref": m, "lang": "en", "selectors": ["type"]}])))
+            out.append(("gm-ref-and-empty-lang", dict(j, granular_markings=[{"marking_ref": m, "lang": "", "selectors": ["type"]}])))
+            out.append(("gm-empty-ref-and-lang", dict(j, granular_markings=[{"marking_ref": "", "lang": "en", "selectors": ["type"]}])))
     return out
 
 
